@@ -5,25 +5,21 @@ import os
 VERIF = os.path.dirname(os.path.dirname(os.path.abspath(__file__)))
 ALL = ['C%02d' % i for i in range(1, 20)]
 
-CLAIMED = {
-    'C07': {
-        'text': 'Coq theorems over ALL exponent vectors (any family of units built by product, quotient, rational power, '
-                'scaling; any pair/triple): factor laws (refl, inverse, transitivity, ratio of SI scales), convert magnitude, '
-                'is_equivalent an equivalence and equal to "factor is 1" (partial: radian, known finding), dimension mismatch is an error. '
-                'Model/UStore.v is tied to units.py by a translator for the built-in tables and by a correspondence check on '
-                'operation lists (extracted OCaml vs implementation); the laws are also evaluated on the implementation numbers.',
-        'note': 'Trusted: Coq kernel; stdlib real-number axioms + classic (Print Assumptions, listed in evidence); extraction; '
-                'translator for units.py sets and cellml_units.txt; pint modelled exactly (floating point tolerance 1e-9); '
-                'numbers restricted to prime factors < 100.',
-        'technique': 'Coq proof over a unit-vector model + translator + extracted-model correspondence',
-        'design_ref': 'DESIGN.md section 5 C07',
-    },
-}
+CLAIMED = {}   # filled from manifest.d/Cxx.json (one file per claimed property)
+
+
+def load_snippets():
+    import glob
+    for path in sorted(glob.glob(os.path.join(VERIF, 'manifest.d', 'C*.json'))):
+        pid = os.path.basename(path)[:-5]
+        CLAIMED[pid] = json.load(open(path))
+
 
 REASON_PENDING = 'check not built yet in this round (model and theorem under construction; see DESIGN.md section 9)'
 
 
 def main():
+    load_snippets()
     checks = []
     for pid in ALL:
         if pid not in CLAIMED:
